@@ -36,23 +36,23 @@ structure CapRun where
 deriving Repr
 
 /-- the `while True` loop of one repeat. -/
-def capLoop (a : Acc) (tol : Rat) (maxIter : Nat) (multi : Bool) :
+def capLoop (a : Acc) (tol : Rat) (maxIter : Nat) :
     Nat → Vec → Option Rat → List Rat → List Rat → Option CapRun
   | 0, _, _, _, _ => none
   | f + 1, last, lastEv, queue, record =>
     let r := capStep a last
     let record := record ++ [clampEv tol r.2]
     match lastEv with
-    | none => capLoop a tol maxIter multi f r.1 (some r.2) queue record
+    | none => capLoop a tol maxIter f r.1 (some r.2) queue record
     | some le =>
       let rel := if le > 0 then ratAbs (r.2 - le) / le else 0
       let queue := queue ++ [r.2]
-      let settled := multi ||
+      let settled :=
         decide ((((List.range a.size).map fun v => ratAbs (r.1.getD v 0 - last.getD v 0)).foldl max 0) < tol)
       let res1 := if rel < tol ∧ settled then [clampEv tol r.2] else []
       let res2 := if queue.length > maxIter then [clampEv tol (ratMedian queue)] else []
       if res1 ++ res2 ≠ [] then some ⟨res1 ++ res2, record⟩
-      else capLoop a tol maxIter multi f r.1 (some r.2) queue record
+      else capLoop a tol maxIter f r.1 (some r.2) queue record
 
 /-- `where(sum(accessor, axis=1) == -4)[0]` zeroed in the start vector. -/
 def zeroDead (a : Acc) (x : Vec) : Vec :=
@@ -60,17 +60,17 @@ def zeroDead (a : Acc) (x : Vec) : Vec :=
     if (a.getD v #[]).foldl (· + ·) 0 == -4 then 0 else x.getD v 0
 
 /-- `approximate_capacity(accessor, tolerance, repeats, maximum_iteration)` for the given start
-vectors (one per repeat; `multi` = `repeats > 1`): the results list whose `log2`-median the code
+vectors (one per repeat; since the second capacity fix every mode uses the same stopping rule):
+the results list whose `log2`-median the code
 returns, and the per-repeat records. `none` = out of fuel. -/
 def approximateCapacity (a : Acc) (tol : Rat) (maxIter : Nat) (starts : List Vec) : Option (List Rat × List (List Rat)) :=
   if a.all (fun r => r.all (· == -1)) then some ([1], starts.map fun _ => [1])
   else
-    let multi := decide (starts.length > 1)
     starts.foldl (fun acc x0 =>
       match acc with
       | none => none
       | some (res, recs) =>
-        match capLoop a tol maxIter multi (maxIter + 2) (zeroDead a x0) none [] [] with
+        match capLoop a tol maxIter (maxIter + 2) (zeroDead a x0) none [] [] with
         | none => none
         | some run => some (res ++ run.results, recs ++ [run.record])) (some ([], []))
 
